@@ -77,10 +77,15 @@ def coeff_edge(rng, edges, given_edges, form, values=(1.0, 0.5, -2.0, 1.5, 0.25)
         d = {}
         for e in given_edges:
             a, b = e
-            if rng.random() < 0.5:
+            r_ = rng.random()
+            if r_ < 0.4:
                 d[(b, a)] = objs[frozenset(e)]  # reversed orientation relative to the edge list
-            else:
+            elif r_ < 0.8:
                 d[(a, b)] = objs[frozenset(e)]
+            else:
+                # a symmetric table: the bond listed under both orientations
+                d[(a, b)] = objs[frozenset(e)]
+                d[(b, a)] = objs[frozenset(e)]
         return d, truth
     return (lambda a, b: objs[frozenset((a, b))]), truth
 
